@@ -2,7 +2,10 @@ use crate::Emitter;
 use serde_json::{json, Value};
 use std::panic::{catch_unwind, AssertUnwindSafe};
 
+pub mod c03;
 pub mod c10;
+pub mod c12;
+pub mod common;
 
 /// Start-up assertions about the build the harness measures (DESIGN.md section 4).
 pub fn selfcheck() {
@@ -31,7 +34,9 @@ pub fn outcome_total<T>(f: impl FnOnce() -> T, show: impl FnOnce(T) -> Value) ->
 
 pub fn generate(id: &str, thorough: bool, seed: u64, em: &mut Emitter) {
     match id {
+        "C03" => c03::generate(thorough, seed, em),
         "C10" => c10::generate(thorough, seed, em),
+        "C12" => c12::generate(thorough, seed, em),
         _ => panic!("unknown property {}", id),
     }
 }
@@ -39,6 +44,7 @@ pub fn generate(id: &str, thorough: bool, seed: u64, em: &mut Emitter) {
 pub fn execute(kind: &str, input: &Value) -> Value {
     match kind {
         "split" => c10::exec_split(input),
+        "verify" => common::exec_verify(input),
         _ => json!({"harness_error": format!("unknown kind {}", kind)}),
     }
 }
